@@ -7,7 +7,7 @@ from trie.fog import HexaryTrieFog, TrieFrontierCache
 from trie.exceptions import (PerfectVisibility, FullDirectionalVisibility, MissingTraversalNode, TraversedPartialPath)
 
 ID = "C09"
-LEAN_IMPORTS = ["PyTrie.Props.C09", "PyTrie.Props.NonVacuity", "PyTrie.Props.NonVacuity2"]
+LEAN_IMPORTS = ["PyTrie.Props.C09", "PyTrie.Props.NonVacuity", "PyTrie.Props.NonVacuity2", "PyTrie.Props.NonVacuity6"]
 THEOREMS = [
     "PyTrie.Props.C09.step_defined",
     "PyTrie.Props.C09.finds_stable",
@@ -31,6 +31,13 @@ THEOREMS = [
     "PyTrie.Props.C09.earlier_versions_consistent",
     "PyTrie.Props.C09.op_keeps_other_tree_consistent",
     "PyTrie.Props.C09.old_version_read_truthful",
+    "PyTrie.Props.NonVacuity6.hist5_versions_p",
+    "PyTrie.Props.NonVacuity6.hist5_versions_consistent",
+    "PyTrie.Props.NonVacuity6.read_v5_ok",
+    "PyTrie.Props.NonVacuity6.read_v2_error",
+    "PyTrie.Props.NonVacuity6.read_v2_error_eval",
+    "PyTrie.Props.NonVacuity6.read6_v5_ok",
+    "PyTrie.Props.NonVacuity6.read6_v2_error",
 ]
 RULE = ("walks over tries built by generated histories: at every step an unexplored prefix is taken with nearest_unknown or "
         "nearest_right for a (changing) query key, traversed from the root or from a TrieFrontierCache entry (stale entries "
